@@ -187,6 +187,20 @@ func runProperty[C any](t *testing.T, prop string, gen func(*rapid.T) C, run fun
 			os.Exit(2)
 		}
 		o := run(c)
+		// The race detector has no false positives but may miss a race it reported before when an
+		// incidental happens-before edge (runtime caches warmed differently) hides it; the execution
+		// itself is identical. For a recorded race verdict the replay is therefore attempted a few times.
+		for i := 0; i < 8 && o.Violation == "" && strings.Contains(rf.Sig, "/race:"); i++ {
+			o = run(c)
+		}
+		if n := os.Getenv("VERIF_REPLAY_REPEAT"); n != "" { // debugging aid: is the verdict stable within one process?
+			var k int
+			fmt.Sscan(n, &k)
+			for i := 0; i < k; i++ {
+				o2 := run(c)
+				fmt.Printf("REPEAT %d sig=%q digest=%s\n", i, o2.Sig, o2.Digest)
+			}
+		}
 		if o.Violation != "" {
 			fmt.Printf("REPLAY-VIOLATION property=%s sig=%s\n%s\n", prop, o.Sig, o.Violation)
 			t.Fail()
@@ -257,9 +271,9 @@ func runProperty[C any](t *testing.T, prop string, gen func(*rapid.T) C, run fun
 			// in-process re-execution of a sample of cases: the run must be a pure function of the case
 			if o.Digest != "" && (caseNo <= 3 || caseNo%97 == 0) {
 				o2 := safeRun(c)
-				if o2.Digest != o.Digest || o2.Violation != o.Violation {
+				if o2.Digest != o.Digest || o2.Sig != o.Sig { // the violation text may hold addresses; the signature may not
 					cj, _ := json.Marshal(c)
-					st.Nondet = fmt.Sprintf("case %d gave digest %s then %s (violation %q then %q): %s", caseNo, o.Digest, o2.Digest, o.Violation, o2.Violation, cj)
+					st.Nondet = fmt.Sprintf("case %d gave digest %s then %s, signature %q then %q; CASE=%s\nfirst: %s\nsecond: %s", caseNo, o.Digest, o2.Digest, o.Sig, o2.Sig, cj, o.Violation, o2.Violation)
 				}
 			}
 			if *flagDigests {
